@@ -21,7 +21,7 @@ func init() { Register(c09{}) }
 func (c09) ID() string { return "C09" }
 
 // event kinds over a small universe of agents
-var c09Kinds = []string{"connect", "disconnect", "disconnect-fail", "exit", "killdate", "markdead", "markalive", "connect-new", "connect-id0", "connect-dbfault"}
+var c09Kinds = []string{"connect", "disconnect", "disconnect-fail", "exit", "killdate", "markdead", "markalive", "connect-new", "connect-id0", "connect-dbfault", "restart"}
 
 func (c09) Gen(seed uint64, run int, tier string) *Plan {
 	r := genRand(seed, "C09", run)
@@ -101,6 +101,8 @@ type c09State struct {
 	r     *simrt.Rand
 	// agents whose link row may be off: a write to the link table failed (injected) while they moved
 	faulted map[string]bool
+	restarts int
+	policy   simrt.Policy
 }
 
 func (st *c09State) rid(d *world.Demon) uint32 {
@@ -121,12 +123,16 @@ func (c09) Exec(p *Plan, dir string) *Result {
 		res.finish(w)
 		return res
 	}
-	st := &c09State{w: w, res: res, wit: w.Operators[0], r: r}
+	st := &c09State{w: w, res: res, wit: w.Operators[0], r: r, policy: p.Policy}
 	db, err := sql.Open("sqlite3", "file:"+w.Dir+"/data/teamserver.db?mode=ro")
 	if err == nil {
 		st.db = db
-		defer db.Close()
 	}
+	defer func() {
+		if st.db != nil {
+			st.db.Close()
+		}
+	}()
 	w.Sim.SetPolicy(p.Policy)
 	res.FP(len(w.Demons), p.Knob("enumerated", 0))
 	st.check("setup")
@@ -170,6 +176,35 @@ func (st *c09State) apply(a Action) {
 		if a.A%n == a.B%n {
 			res.Probe("connect-to-self")
 		}
+	case "restart":
+		// the teamserver is restarted on the same database: the live sessions and their links come
+		// back, rows of links that no longer connect two live sessions are dropped
+		if st.restarts >= 2 || len(st.faulted) > 0 {
+			// (after an injected write failure the link table is known to be off for some agent:
+			// what a restart makes of it is not judged)
+			return
+		}
+		st.restarts++
+		if st.db != nil {
+			st.db.Close()
+			st.db = nil
+		}
+		w.Crash()
+		if err := w.Boot(); err != nil {
+			res.Violate("C09", "restart-fails", "boot", "the teamserver does not come up again on its database: "+err.Error(), w.Sim)
+			return
+		}
+		o := w.NewOperator(w.Cfg.Operators[0].Name, w.Cfg.Operators[0].Password)
+		if !o.Login() {
+			res.Violate("C09", "restart-fails", "operator-login", "no operator can log in after the restart", w.Sim)
+			return
+		}
+		st.wit = o
+		if db, err := sql.Open("sqlite3", "file:"+w.Dir+"/data/teamserver.db?mode=ro"); err == nil {
+			st.db = db
+		}
+		w.Sim.SetPolicy(st.policy)
+		res.Probe("restarts")
 	case "connect-id0":
 		// the same report, but the header of the packet from the pipe carries agent id 0: only its
 		// encrypted part names X
